@@ -49,7 +49,69 @@ func (x *Ctx) destFuncs() map[*ssa.Function]destSig {
 		}
 		out[fn] = destSig{pi, ri}
 	}
+	// a destination is something the function writes to (appends to, grows, stores into, hands on as a destination):
+	// a function that only reads its []byte parameter (unescapedKey(fieldname) ([]byte, error)) takes an input, not
+	// a destination. Greatest fixpoint: candidates are dropped until every remaining one writes.
+	for changed := true; changed; {
+		changed = false
+		for fn, sig := range out {
+			if x.canon(fn) == "growBytesSliceCapacity" {
+				continue
+			}
+			if !writesParam(fn, fn.Params[sig.param], out) {
+				delete(out, fn)
+				changed = true
+			}
+		}
+	}
 	return out
+}
+
+// writesParam: the slice parameter p (or a re-slice / phi of it) is the first argument of append or copy, the base of
+// an element store, or the destination argument of a destination-taking function.
+func writesParam(fn *ssa.Function, p *ssa.Parameter, dests map[*ssa.Function]destSig) bool {
+	seen := map[ssa.Value]bool{}
+	var visit func(v ssa.Value) bool
+	visit = func(v ssa.Value) bool {
+		if seen[v] {
+			return false
+		}
+		seen[v] = true
+		for _, ref := range *v.Referrers() {
+			switch u := ref.(type) {
+			case *ssa.Slice:
+				if u.X == v && visit(u) {
+					return true
+				}
+			case *ssa.Phi:
+				if visit(u) {
+					return true
+				}
+			case *ssa.IndexAddr:
+				if u.X == v {
+					for _, r2 := range *u.Referrers() {
+						if st, ok := r2.(*ssa.Store); ok && st.Addr == ssa.Value(u) {
+							return true
+						}
+					}
+				}
+			case *ssa.Call:
+				if bi, ok := u.Call.Value.(*ssa.Builtin); ok {
+					if (bi.Name() == "append" || bi.Name() == "copy") && u.Call.Args[0] == v {
+						return true
+					}
+					continue
+				}
+				if callee := u.Call.StaticCallee(); callee != nil {
+					if cs, ok := dests[callee]; ok && cs.param < len(u.Call.Args) && u.Call.Args[cs.param] == v {
+						return true
+					}
+				}
+			}
+		}
+		return false
+	}
+	return visit(p)
 }
 
 // lbForm: lower-bound form L0 + K + (non-negative unknowns); ok=false if not of that shape.
@@ -488,6 +550,16 @@ func (a *destAnalysis) closure(funcs map[*ssa.Function]destSig) {
 							}
 						}
 					}
+				case *ssa.MakeSlice:
+					// a fresh slice of at least the original length into which the destination is copied before any other
+					// use: its first L0 bytes are the destination's
+					if a.form(ins.Len, 0).atLeastL0() && a.copiedFromDerived(ins) {
+						a.derived[v] = true
+						if f := a.form(ins.Len, 0); f.l0 == 1 && f.k == 0 && f.nn == 0 {
+							a.exact[v] = true
+						}
+						changed = true
+					}
 				case *ssa.Slice:
 					if a.derived[ins.X] {
 						lowOK := ins.Low == nil || a.form(ins.Low, 0).isZero()
@@ -507,4 +579,39 @@ func (a *destAnalysis) closure(funcs map[*ssa.Function]destSig) {
 			}
 		}
 	}
+}
+
+// copiedFromDerived: the made slice m is the target of a copy(m, d) with d derived from the destination, and that copy
+// comes before every other use of m (same block and earlier, or in a dominating block).
+func (a *destAnalysis) copiedFromDerived(m *ssa.MakeSlice) bool {
+	var cp *ssa.Call
+	for _, ref := range *m.Referrers() {
+		if c, ok := ref.(*ssa.Call); ok {
+			if bi, ok := c.Call.Value.(*ssa.Builtin); ok && bi.Name() == "copy" && c.Call.Args[0] == m && a.derived[c.Call.Args[1]] {
+				cp = c
+				break
+			}
+		}
+	}
+	if cp == nil {
+		return false
+	}
+	for _, ref := range *m.Referrers() {
+		if ref == ssa.Instruction(cp) {
+			continue
+		}
+		if _, ok := ref.(*ssa.DebugRef); ok {
+			continue
+		}
+		if ref.Block() == cp.Block() {
+			if instrIndex(ref) < instrIndex(cp) {
+				return false
+			}
+			continue
+		}
+		if !cp.Block().Dominates(ref.Block()) {
+			return false
+		}
+	}
+	return true
 }
